@@ -61,6 +61,16 @@ def check(an: Analysis) -> None:
     if len(locks) != 1:
         ob.missing(f, None, f"expected one locked region (`async with self._lock` or acquire/try/finally-release), found {len(locks)}: the window bookkeeping is not serialised")
     if len(uses) < 4:
+        tcls_ = prog.cls("helpers.throttling._AsyncThrottle")
+        holds_sequence = any(isinstance(unwrap(v), (ast.List, ast.ListComp)) or (isinstance(unwrap(v), ast.Call) and (dotted(unwrap(v).func) or "").rsplit(".", 1)[-1] in ("deque", "list", "OrderedDict", "dict")) for vals in tcls_.attr_val.values() for v in vals)
+        if not uses and not holds_sequence:
+            # no collection of start times at all: the bound is over *every* interval of length `period`, which needs the individual
+            # start times of the last `limit` calls - a counter per fixed period admits up to 2 x limit calls around a period boundary
+            ob.fail(f, None, "the throttle keeps no record of the individual start times (no sliding window): a per-period counter lets up to 2 x limit calls begin within one period-long interval that straddles a period boundary")
+            from .common import wellformed_for
+
+            wellformed_for(an, "C15")
+            return
         raise AnalysisError(f"C15.1: only {len(uses)} accesses to self._entries found (confirmed: 6)")
     for u in uses:
         ob.inst(f, parent(u))
